@@ -46,7 +46,7 @@ def expected_model(c):
         return go
     if op in ("avopen", "avstale"):
         return " ".join(go.split(" ")[:3])          # averr=.. closed=.. next=..
-    if op == "trlate":
+    if op in ("trlate", "trcut"):
         # the harness's own verdicts with the detail after BAD stripped
         return " ".join(x.split(":")[0] for x in go.split(" "))
     return "skip"
@@ -59,15 +59,73 @@ def generate(ctx=None):
     return c10.generate(ctx)
 
 
+
+CUT_WHAT = {
+    "cut": "a Transport call whose response was cut did not end with an error, or a later call to the same broker did not get a message "
+           "(C17: a response cut off at any byte yields an error; the next request must dial a fresh connection)",
+    "deliv": "a Transport call received the answer to ANOTHER call's request",
+    "hang": "after a cut response a later request to the same broker never returned, ignoring its context deadline (2 s watchdog): "
+            "the dead connection was still on the idle list and the hand-off `c.reqs <- connRequest` blocks forever",
+    "ids": "a correlation id was used twice on one transport connection (C06_pool_ids_increasing)",
+    "fail": "a transport connection carried another request after one of its exchanges had failed (C06_pool_failed_conn_final)",
+}
+
+
+def judge_monitor_case(c, m, keys):
+    """Verdicts of the extracted monitors (m) and of the harness (c['go']) on a trlate / trcut case.
+    Returns (property failure or None, correspondence failure or None)."""
+    want = expected_model(c)
+    inp = dict(case=c["line"], go=c["go"], feats=c["feats"], model=m)
+    if c["go"].startswith(("HANG", "SETUP")):
+        return dict(layer="property", key=None, what=f"{c['op']}: scenario did not run to its end: " + c["go"][:80],
+                    detail=c["line"][:600], input=inp), None
+    mv = dict(x.split("=") for x in (m or "").split(" ") if "=" in x)
+    gv = dict(x.split("=", 1) for x in c["go"].split(" ") if "=" in x)
+    bad = [k for k in keys if mv.get(k) == "BAD" or gv.get(k, "ok") != "ok"]
+    pf = cf = None
+    if bad:
+        pf = dict(layer="property", key=None, what="; ".join(CUT_WHAT[k] for k in bad),
+                  detail=c["line"][:900] + " -> " + c["go"][:200] + " | monitor: " + str(m), input=inp)
+    if m != want:
+        cf = dict(layer="correspondence", what=f"{c['op']}: the extracted monitors and the harness judge the recorded journal differently",
+                  detail=json.dumps(dict(case=c["line"][:800], go=c["go"][:300], model=str(m)[:300])), input=None)
+    return pf, cf
+
+
+def transport_cut_cases(ctx, ncases=None):
+    """Transport half of C17 (also part of C06): harness op trcut only.  Same dict shape as
+    correspondence(): evaluations, distinct_nontrivial, hist, rule, samples, failures, extra."""
+    model = L.ocaml_build("c06")
+    n = ncases if ncases is not None else ctx.scale(18, 300)
+    out, dt = run_harness(ctx, 0, 0, av=0, late=0, cut=n)
+    cases = L.parse_cases(out)
+    res = L.run_model(model, "\n".join(model_line(c) for c in cases) + "\n", timeout=600)
+    failures = []
+    for c in cases:
+        c["line"] = f'{c["id"]} {c["op"]} {c["args"]}'
+        pf, cf = judge_monitor_case(c, res.get(c["id"]), ("cut", "deliv", "hang", "ids", "fail"))
+        failures += [f for f in (pf, cf) if f]
+    ev, dn, hist = L.coverage_counts(cases, trivial_feats=("",))
+    return dict(evaluations=ev, distinct_nontrivial=dn, hist=hist,
+                rule="Transport half of C17 through kafka.Transport (harness/cmd/c06 op trcut): the answer to one call is cut after k bytes "
+                     "(inside the size prefix, inside the correlation id, at 8, in the body, all but the last byte) and the connection closed "
+                     "or left silent until the call's deadline; 1-3 followers of other APIs for the same connection group, each under its own "
+                     "deadline and a 2 s watchdog; judged by the monitors extracted from coq/Model/TransportPool.v (mon_cut, mon_delivery, "
+                     "mon_nohang, mon_ids, mon_fail) on the recorded wire journal",
+                samples=[c["line"][:260] + " | " + c["go"][:100] + " | " + c["feats"] for c in cases[:3]],
+                failures=failures[:20], notes=[], extra=dict(transport_cut_cases=len(cases), harness_wall_s=round(dt, 1)))
+
+
 def setup():
     L.go_build("c06")
     L.ocaml_build("c06")
 
 
-def run_harness(ctx, n, big, av=4, seed=None, late=None):
+def run_harness(ctx, n, big, av=4, seed=None, late=None, cut=None):
     gobin = L.go_build("c06")
     rc, out, err, dt = L.sh([gobin, "-seed", str(seed if seed is not None else ctx.seed), "-n", str(n),
-                             "-big", str(big), "-av", str(av), "-late", str(late if late is not None else ctx.scale(24, 300))], timeout=1500)
+                             "-big", str(big), "-av", str(av), "-late", str(late if late is not None else ctx.scale(24, 300)),
+                             "-cut", str(cut if cut is not None else ctx.scale(18, 300))], timeout=1500)
     if rc != 0:
         raise L.Fail("correspondence", "harness cmd/c06 crashed", (out[-1500:] + err[-2500:]))
     return out, dt
@@ -118,6 +176,14 @@ def correspondence(ctx):
                                      what="bytes left over from an abandoned ApiVersions exchange were delivered to the next call as its response",
                                      detail=c["line"][:400] + " -> " + c["go"][:200], input=inp))
                 continue
+        if c["op"] == "trcut":
+            pf, cf = judge_monitor_case(c, m, ("cut", "deliv", "hang", "ids", "fail"))
+            if pf:
+                failures.append(pf)
+            if cf:
+                norun += 1
+                failures.append(cf)
+            continue
         if c["op"] == "trlate" and not c["go"].startswith(("HANG", "SETUP")):
             # verdicts of the monitors extracted from Model/TransportPool.v (mon_delivery / mon_ids / mon_fail)
             # on the recorded wire journal; the harness's own evaluation must agree (checked below)
@@ -177,7 +243,7 @@ def correspondence(ctx):
                      "deadline, ctx cancel / deadline) checked by linearisation search against the extracted model (projection: order of requests "
                      "at the broker, order of complete answer frames per connection, outcome class per call); muxbig / trbig = 2-16 goroutines x "
                      "3-10 payload-tagged calls, predicate only (every returned value carries the caller's tag, every failure is an error); "
-                     "trlate = one Transport call whose context deadline expires mid-exchange, the broker answers LATE (released by the next request on that connection / timed), 1-3 followers of the same connection group (fc, lo, of) within the idle timeout; the whole wire journal (conn, correlation id per request and answer frame) and the call results go through the monitors extracted from Model/TransportPool.v (mon_delivery, mon_ids, mon_fail);  avopen / avstale = regression of the former ApiVersions defect (time-out inside the body must close; no left-over bytes delivered).  non-trivial = anything but a single undisturbed call",
+                     "trlate = one Transport call whose context deadline expires mid-exchange, the broker answers LATE (released by the next request on that connection / timed), 1-3 followers of the same connection group (fc, lo, of) within the idle timeout; the whole wire journal (conn, correlation id per request and answer frame) and the call results go through the monitors extracted from Model/TransportPool.v (mon_delivery, mon_ids, mon_fail);  trcut = the answer to one Transport call cut after k bytes (then closed / silent), 1-3 followers of the same connection group must each get their own answer on a fresh connection within their deadline (monitors mon_cut, mon_nohang, mon_delivery, mon_ids, mon_fail);  avopen / avstale = regression of the former ApiVersions defect (time-out inside the body must close; no left-over bytes delivered).  non-trivial = anything but a single undisturbed call",
                 samples=[c["line"][:260] + " | " + c["go"][:100] for c in cases[:2] + cases[len(cases)//3:len(cases)//3+2]
                          + cases[2*len(cases)//3:2*len(cases)//3+2] + cases[-2:]],
                 extra=dict(per_op=per_op, tagged_calls_ok=ok_calls, tagged_calls_err=err_calls,
